@@ -134,6 +134,7 @@ class World(object):
         self.mmem = bytearray(self.ctl.mem)
         self.freed = False
         self.step = 0
+        self.extra_problems = []
 
     def canon(self):
         views = []
@@ -145,6 +146,13 @@ class World(object):
 
 
 def apply(world, v, op, problems, known):
+    world.extra_problems = []
+    _apply(world, v, op, problems, known)
+    problems.extend(world.extra_problems)
+    world.extra_problems = []
+
+
+def _apply(world, v, op, problems, known):
     """Apply `op` to view index v of both real objects and model; append
     (kind, sig_extra, message) to problems on disagreement."""
     from rig.machine_control.machine_controller import TruncationWarning
@@ -378,7 +386,31 @@ def apply(world, v, op, problems, known):
 
 def resync(world):
     """Bring the model to the implementation's state so that states behind a
-    reported (or known) discrepancy are still explored."""
+    reported (or known) discrepancy are still explored.  Before that, every
+    live view object is probed: tell() must fail exactly on the views the
+    model holds to be closed or freed (a view that wrongly stays alive - or
+    dies with another one - is seen at once, not only when a later operation
+    of the history happens to touch it)."""
+    for i, (r, m) in enumerate(zip(world.real, world.model)):
+        want_dead = m.closed or world.freed
+        try:
+            r.tell()
+            dead = False
+        except OSError:
+            dead = True
+        except Exception as e:
+            world.extra_problems.append(
+                ("probe_exception", {}, "tell() on view %d raised %s: %s"
+                 % (i, type(e).__name__, e)))
+            continue
+        if dead != want_dead:
+            world.extra_problems.append(
+                ("liveness", dict(expected="dead" if want_dead else "alive"),
+                 "after step %d view %d [%#x,%#x) is %s (closed=%r, "
+                 "allocation freed=%r) but tell() %s"
+                 % (world.step, i, m.start, m.end,
+                    "dead" if want_dead else "alive", m.closed, world.freed,
+                    "raises OSError" if dead else "succeeds")))
     for r, m in zip(world.real, world.model):
         m.off = r._offset
         m.closed = r.closed
